@@ -1,10 +1,96 @@
-"""Native replay of solver counterexamples against the real crate and kernel."""
-import json, os, subprocess
+"""Native replay of solver counterexamples against the real crate and the real kernel.
+
+A counterexample found by CBMC on (real code + model kernel) is reported as a
+VIOLATION only if the native replayer (/verif/replay, ordinary Rust binaries
+with a path dependency on /repo, rebuilt from the current tree) observes a
+violation of the same property on the real kernel.  Otherwise the model or the
+harness is wrong and the check is inconclusive (exit 2).
+"""
+import json, os, re, subprocess, time
+
+REPLAY_DIR = "/verif/replay"
+BIN = REPLAY_DIR + "/target/debug/vreplay"
+_built = False
+
+
+def build():
+    global _built
+    if _built:
+        return True, ""
+    env = dict(os.environ)
+    env["CARGO_NET_OFFLINE"] = "true"
+    p = subprocess.run(["cargo", "build", "--offline"], cwd=REPLAY_DIR, env=env, stdout=subprocess.PIPE, stderr=subprocess.STDOUT)
+    _built = p.returncode == 0
+    return _built, p.stdout.decode("utf-8", "replace")[-800:]
+
+
+def run_vreplay(args, timeout=300):
+    ok, msg = build()
+    if not ok:
+        return None, "replay crate does not build: " + msg
+    os.makedirs("/verif/.work/rt", exist_ok=True)
+    try:
+        p = subprocess.run([BIN] + args, stdout=subprocess.PIPE, stderr=subprocess.STDOUT, timeout=timeout,
+                           stdin=subprocess.DEVNULL)
+        return p.stdout.decode("utf-8", "replace"), None
+    except subprocess.TimeoutExpired as e:
+        return (e.stdout or b"").decode("utf-8", "replace") + "\nHANG (native watchdog %ds)\n" % timeout, None
+
+
+def viol_lines(out, pid):
+    v = []
+    for l in out.split("\n"):
+        m = re.match(r"^CASE (.*?) VIOL (%s/.*)$" % pid, l)
+        if m:
+            v.append({"scenario": m.group(1), "what": m.group(2)})
+    return v
+
+
+# harness-name prefix -> (family, extra args)
+FAMILIES = [
+    (r"^h_spawn_child_", "spawn", []),
+    (r"^h_spawn_parent", "spawn", []),
+    (r"^h_spawn_child", "spawn", []),
+    (r"^h_fail_parent", "fail", []),
+]
+
+
+def family_of(short):
+    for rx, fam, extra in FAMILIES:
+        if re.search(rx, short):
+            return fam, extra
+    return None, None
 
 
 def replay_counterexample(pid, item, result, seed):
-    return None, {"note": "no native replayer for this property yet"}
+    short = item.name.split("::")[-1]
+    fam, extra = family_of(short)
+    if fam is None:
+        return None, {"note": "no native replayer registered for harness %s" % short}
+    args = [fam, "focus=%s" % pid] + list(extra) + list(getattr(item, "replay_args", []) or [])
+    out, err = run_vreplay(args)
+    if out is None:
+        return None, {"error": err}
+    v = viol_lines(out, pid)
+    m = re.search(r"SUMMARY .*cases=(\d+) violations=(\d+)", out)
+    info = {"replayer": "vreplay " + " ".join(args), "cases": int(m.group(1)) if m else None,
+            "native": v[:8], "scenario": v[0]["scenario"] if v else None}
+    if not m and "HANG" not in out:
+        info["error"] = out[-400:]
+        return None, info
+    return (len(v) > 0), info
 
 
 def replay_file(pid, path):
-    return False, {"note": "no native replayer for this property yet"}
+    d = json.load(open(path))
+    sc = d.get("scenario") or ""
+    harness = d.get("harness", "").split("::")[-1]
+    fam, extra = family_of(harness)
+    if fam is None:
+        return False, {"note": "no native replayer for %s" % harness}
+    args = [fam, "focus=%s" % pid] + list(extra) + [kv for kv in sc.split() if "=" in kv]
+    out, err = run_vreplay(args)
+    if out is None:
+        return False, {"error": err}
+    v = viol_lines(out, pid)
+    return len(v) > 0, {"replayer": "vreplay " + " ".join(args), "native": v[:8]}
